@@ -11,6 +11,41 @@ theorem toNat_lt (c : Char) : c.toNat < 0x110000 := by
     omega
   · exact h
 
+/-- the model's UTF-8 is Lean core's `String.utf8EncodeChar` (whose decoder round trip is proved in `Init.Data.String.Decode`) -/
+theorem utf8_eq_core (c : Char) : utf8 c = (String.utf8EncodeChar c).map (·.toNat) := by
+  have hv := toNat_lt c
+  unfold utf8 String.utf8EncodeChar
+  simp only [Char.toNat] at hv ⊢
+  by_cases h1 : c.val.toNat ≤ 0x7f
+  · have : c.val.toNat < 0x80 := by omega
+    simp only [this, h1, ↓reduceIte, List.map_cons, List.map_nil, UInt8.toNat_ofNat']
+    congr 1; omega
+  · have n1 : ¬ c.val.toNat < 0x80 := by omega
+    by_cases h2 : c.val.toNat ≤ 0x7ff
+    · have : c.val.toNat < 0x800 := by omega
+      simp only [this, h1, h2, n1, ↓reduceIte, List.map_cons, List.map_nil, UInt8.toNat_ofNat']
+      congr 1
+      · omega
+      · congr 1; omega
+    · have n2 : ¬ c.val.toNat < 0x800 := by omega
+      by_cases h3 : c.val.toNat ≤ 0xffff
+      · have : c.val.toNat < 0x10000 := by omega
+        simp only [this, h1, h2, h3, n1, n2, ↓reduceIte, List.map_cons, List.map_nil, UInt8.toNat_ofNat']
+        congr 1
+        · omega
+        · congr 1
+          · omega
+          · congr 1; omega
+      · have n3 : ¬ c.val.toNat < 0x10000 := by omega
+        simp only [h1, h2, h3, n1, n2, n3, ↓reduceIte, List.map_cons, List.map_nil, UInt8.toNat_ofNat']
+        congr 1
+        · omega
+        · congr 1
+          · omega
+          · congr 1
+            · omega
+            · congr 1; omega
+
 theorem hexVal_hexU : ∀ d : Fin 16, hexVal (hexU d.val) = some d.val := by decide
 
 theorem hexU_ok : ∀ d : Fin 16, hexU d.val ≠ '/' ∧ hexU d.val ≠ '\x00' ∧ hexU d.val ≠ '%' := by decide
